@@ -23,9 +23,9 @@ ASSUMPTIONS = ["the explicit shape is enlarged to cover the new common value (pr
 
 @st.composite
 def cases(draw, tier):
-    spec = draw(c03.cases(tier, max_nd=3))
+    spec = draw(c03.cases(tier, max_nd=3, big=False))
     if not spec["dims"]:
-        spec = draw(c03.cases(tier, max_nd=3))
+        spec = draw(c03.cases(tier, max_nd=3, big=False))
     spec["shape_mode"] = draw(st.sampled_from(["explicit", "explicit", "inferred"]))
     return spec
 
